@@ -19,3 +19,14 @@ Theorem C05_selection : forall o first,
       match c_output o with Some p => ext p | None => match first with Some f => f | None => "json-pretty" end end end.
 Proof. reflexivity. Qed.
 Print Assumptions C05_selection.
+
+(* a whole stream round-trips, document for document, as soon as each document's text does: for ANY per-document
+   encoder/decoder pair (the format libraries - third-party code, oracles of the check) that round-trips single documents
+   and never emits a separator line inside one, writing a stream and reading it back gives exactly the documents
+   written, in order, none dropped and none invented. The two premises are what the per-run comparison establishes for
+   the generated documents (and exactly what fails in the recorded C05 findings). *)
+Theorem C05_stream_roundtrip : forall toml (enc : value -> list string) (dec : list string -> res value),
+  (forall d, dec (enc d) = Ok d) -> (forall d, no_sep_line toml (enc d) = true) ->
+  forall docs, docs <> [] -> read_stream toml dec (write_stream enc docs) = Ok docs.
+Proof. exact stream_roundtrip. Qed.
+Print Assumptions C05_stream_roundtrip.
